@@ -401,7 +401,11 @@ def gen_program(rng):
     if rng.random() < 0.5:
         rng.shuffle(steps)
     reqs = [rng.choice(B.EXTS + ["prelude"]) for _ in range(rng.choice([0, 0, 1, 2, 3]))]
-    return {"k": "ext", "name": name, "version": rng.choice(VERSIONS), "reqs": reqs, "steps": steps, "mut": None}
+    spec = {"k": "ext", "name": name, "version": rng.choice(VERSIONS), "reqs": reqs, "steps": steps, "mut": None}
+    movable = [st[1] for st in steps if st[0] == "op" and st[4] is not None and st[4][0] == "@poly"]
+    if movable and rng.random() < 0.2:
+        spec["moved"] = rng.sample(movable, rng.randint(1, len(movable)))
+    return spec
 
 
 MUTATIONS = [
@@ -507,6 +511,9 @@ def _opt(x):
     return A("none") if x is None else x
 
 
+MOVED_FROM = "verif.moved.from"
+
+
 def _build_poly(s):
     return None if s is None else B.build_type(s)
 
@@ -533,7 +540,13 @@ def build(spec, serialise_between=False):
             pf = _build_poly(sig)
             if asfn and pf is not None and not pf.params:
                 pf = pf.body  # a plain FunctionType: OpDefSig wraps it in PolyFuncType([], ...)
-            e.add_op_def(ext.OpDef(n, ext.OpDefSig(pf, binary), d, copy.deepcopy(misc)))
+            od = ext.OpDef(n, ext.OpDefSig(pf, binary), d, copy.deepcopy(misc))
+            if n in spec.get("moved", ()):
+                # the definition was first registered with another extension and is moved over
+                other = ext.Extension(MOVED_FROM, ext.Version(0, 1, 0))
+                other.add_op_def(od)
+                od = other.operations.pop(n)
+            e.add_op_def(od)
         elif k == "regop":
             _, cls, doc, n, rsig, d, misc = st
             if isinstance(rsig, list) and rsig and rsig[0] == "sig":
@@ -875,7 +888,10 @@ def program_sx(spec):
         if k == "type":
             out.append([A("type"), st[1], st[2], [B.spec_to_sx(p) for p in st[3]], B.spec_to_sx(st[4])])
         elif k == "op":
-            out.append([A("op"), st[1], st[2], _misc_payload(st[3]), _sig_payload(st[4]), bool(st[5])])
+            sig = st[4]
+            if st[1] in spec.get("moved", ()) and sig is not None:
+                sig = [*sig[:4], [*sig[4], MOVED_FROM]]  # what the first registration left in the signature
+            out.append([A("op"), st[1], st[2], _misc_payload(st[3]), _sig_payload(sig), bool(st[5])])
         elif k == "regop":
             rsig = st[4]
             if isinstance(rsig, list) and rsig and rsig[0] == "sig":
